@@ -450,6 +450,10 @@ func writeEvidence(o *Options, res *runResult, violations []violation, knownHit,
 		}
 		fns = append(fns, fe)
 		for k := range u.externsUsed {
+			if strings.HasPrefix(k, "~") {
+				trusted["assumed contract on a repository function (untagged: proved by no check): "+k[1:]] = true
+				continue
+			}
 			trusted["extern contract: "+k] = true
 		}
 		for k := range u.uncontractedCalls {
